@@ -55,6 +55,9 @@ func idleProp() *common.Prop {
 	return p
 }
 
+// InboundProp is the inbound scenario family by itself (the e2e world's C11 runs use it).
+func InboundProp() *common.Prop { return inProp() }
+
 func inProp() *common.Prop {
 	return &common.Prop{ID: "C02", New: func() interface{} { return &InCase{} },
 		Gen:    func(r *simrt.Rand, tier string, idx int) interface{} { return genInCase(r, tier) },
